@@ -26,7 +26,7 @@ void verif_yaml_word(int c, char *dst);
 int verif_yaml_pos;                 /* events delivered so far */
 int verif_yaml_open_events;         /* events not yet deleted */
 #ifdef VERIF_YAML_SCRIPTED
-extern const int verif_yaml_types[];
+extern const int verif_yaml_types[VERIF_YAML_LEN];
 extern const int verif_yaml_script_n;
 const char *verif_yaml_scalar(int pos);   /* harness: value of the scalar at script position pos */
 #endif
@@ -49,9 +49,45 @@ int yaml_parser_parse(yaml_parser_t *parser, yaml_event_t *event) {
 	event->type = YAML_NO_EVENT;
 	event->data.scalar.value = NULL;
 #ifdef VERIF_YAML_SCRIPTED
-	if (verif_yaml_pos >= verif_yaml_script_n) return 0;
-	event->type = (yaml_event_type_t)verif_yaml_types[verif_yaml_pos];
-	if (event->type == YAML_SCALAR_EVENT) event->data.scalar.value = (yaml_char_t *)v_dup(verif_yaml_scalar(verif_yaml_pos));
+	/* Mode B/C: the harness lays out a concrete skeleton; at the single concrete position VERIF_YAML_MUT (if >= 0) a
+	 * solver-chosen mutation is applied: 0 truncate (syntax error here), 1 arbitrary other event type, 2 arbitrary other
+	 * scalar value, 3 event deleted, 4 event duplicated, 5 swapped with its successor */
+	static int mut_kind = -1, script_pos, dup_done;
+#ifndef VERIF_YAML_MUT
+#define VERIF_YAML_MUT -1
+#endif
+	if (script_pos >= verif_yaml_script_n) return 0;
+	int at = script_pos;
+	if (script_pos == VERIF_YAML_MUT || (mut_kind == 5 && script_pos == VERIF_YAML_MUT + 1)) {
+		if (mut_kind < 0) { mut_kind = ND_u8("mutation_kind"); __CPROVER_assume(mut_kind <= 5); }
+		if (mut_kind == 0) { script_pos = verif_yaml_script_n; return 0; }
+		if (mut_kind == 3 && script_pos == VERIF_YAML_MUT) { script_pos++; at = script_pos; if (script_pos >= verif_yaml_script_n) return 0; }
+		if (mut_kind == 5) { at = (script_pos == VERIF_YAML_MUT) ? VERIF_YAML_MUT + 1 : VERIF_YAML_MUT; if (at >= verif_yaml_script_n) at = script_pos; }
+	}
+	event->type = (yaml_event_type_t)verif_yaml_types[at];
+	bool mutated_here = (script_pos == VERIF_YAML_MUT);
+	if (mutated_here && mut_kind == 1) {
+		uint8_t t = ND_u8("yaml_type");
+		__CPROVER_assume(t >= YAML_STREAM_START_EVENT && t <= YAML_MAPPING_END_EVENT && t != verif_yaml_types[at]);
+		event->type = (yaml_event_type_t)t;
+	}
+	if (event->type == YAML_SCALAR_EVENT) {
+		if (mutated_here && (mut_kind == 2 || mut_kind == 1)) {
+			uint8_t c = ND_u8("yaml_scalar_choice");
+			int n = verif_yaml_dict_size();
+			__CPROVER_assume(c <= n);
+			char *s = malloc(VERIF_YAML_WORDMAX + 1);
+			if (c == n) { s[0] = (char)ND_u8("yaml_c0"); s[1] = (char)ND_u8("yaml_c1"); s[2] = 0; if (s[0] == 0) s[1] = 0; }
+			else verif_yaml_word(c, s);
+			event->data.scalar.value = (yaml_char_t *)s;
+		} else {
+			event->data.scalar.value = (yaml_char_t *)v_dup(verif_yaml_scalar(at));
+		}
+	}
+	if (mutated_here && mut_kind == 4 && !dup_done) { dup_done = 1; } else { script_pos++; }
+	verif_yaml_pos++;
+	verif_yaml_open_events++;
+	return 1;
 #else
 	if (verif_yaml_pos >= VERIF_YAML_K) return 0;
 	if (ND_bool("yaml_error")) { verif_yaml_pos = VERIF_YAML_K; return 0; }
